@@ -157,7 +157,8 @@ class Run:
             def mk(p: int):
                 def body() -> None:
                     k = 0
-                    for call in PROGRAMS[self.names[p]]:
+                    for ci, call in enumerate(PROGRAMS[self.names[p]]):
+                        fs.note(p, ("op", ci))
                         sched.point("op")
                         inv = sched.now()
                         try:
